@@ -6,6 +6,8 @@ import os
 from .. import corpus, families, families_extra, inproc_engine, render, spec
 
 ITEM_ATTRS = ["allow(dead_code)", "cfg(all())", "doc = \" item level docs\"", "allow(clippy::too_many_arguments)", "deny(unsafe_code)"]
+# foreign attributes whose path merely starts with `sv` / ends in a framework name
+LOOKALIKE_ATTRS = ["sv::returns(u32)", "sv", "sv::tracing::instrument", "sv::mgs(exec)", "other::msg(exec)", "sv_msg(exec)", "sv::attrs(x)"]
 FN_ATTRS = ["doc = \" Handler docs.\\n second line\"", "allow(unused_variables)", "must_use", "inline", "cfg(not(feature = \"verif_never\"))",
             "deprecated(note = \"old\")", "allow(clippy::needless_lifetimes)"]
 PARAM_ATTRS = ["allow(unused)", "serde(default)", "cfg(all())", "serde(rename = \"renamed\")"]
@@ -37,7 +39,7 @@ TRAIT_EXTRAS = [
 def decorate(rng, p):
     p = copy.deepcopy(p) if False else p
     for part in p["parts"]:
-        part["foreign_attrs"] = rng.sample(ITEM_ATTRS, rng.choice([0, 1, 2]))
+        part["foreign_attrs"] = rng.sample(ITEM_ATTRS, rng.choice([0, 1, 2])) + rng.sample(LOOKALIKE_ATTRS[:3], rng.choice([0, 0, 1]))
         extras = IMPL_EXTRAS if part["id"] == "c" else TRAIT_EXTRAS
         part["extra_items"] = rng.sample(extras, rng.choice([1, 2, 3]))
         if part["id"] == "c":
@@ -45,7 +47,7 @@ def decorate(rng, p):
         for h in part["handlers"]:
             if h["kind"] == "reply":
                 continue
-            h["foreign_attrs"] = rng.sample(FN_ATTRS, rng.choice([0, 0, 1, 2]))
+            h["foreign_attrs"] = rng.sample(FN_ATTRS, rng.choice([0, 0, 1, 2])) + rng.sample(LOOKALIKE_ATTRS, rng.choice([0, 0, 0, 1]))
             if h["kind"] in ("exec", "query", "sudo"):
                 h["sv_attrs"] = rng.sample(["serde(alias = \"al1\")", "serde(alias = \"al2\")", "doc = \"forwarded\"", "cfg_attr(all(), allow(dead_code))",
                                             "schemars(description = \"d\")"], rng.choice([0, 1, 2, 3, 4]))
@@ -87,6 +89,10 @@ def run(ctx):
         jid = f"d{k:04d}"
         jobs.append((jid + "_c", "contract", None, R.contract_item(), False))
         meta[jid + "_c"] = ("generated", p)
+        if k % 4 == 0:
+            # the legacy argument form `#[contract(module = ..)]`: nothing is generated, the input is still stripped
+            jobs.append((jid + "_l", "contract", "module = some::path", R.contract_item(), False))
+            meta[jid + "_l"] = ("generated", p)
         jobs.append((jid + "_e", "entry_points", None, R.contract_item(True), False))
         meta[jid + "_e"] = ("generated", p)
         for part in p["parts"][1:]:
